@@ -101,6 +101,8 @@ class ShuffleBase(Expr):
             # Move the column projection to come
             # before the abstract Shuffle
             projection = determine_column_projection(self, parent, dependents)
+            # a single selected column comes back as a scalar label
+            projection = _convert_to_list(projection)
 
             partitioning_index = self.partitioning_index
             if isinstance(partitioning_index, (str, int)):
